@@ -101,6 +101,18 @@ func drawC06(rt *rapid.T) *Case {
 	nshared := 2 + gen.Uniform(rt, "shared", 7)
 	c.Ints = []int{ng, nops, nshared, int(rapid.Uint32().Draw(rt, "programseed"))}
 	c.Path = fmt.Sprintf("scenario: %d goroutines x %d operations, %d shared parsed functions", ng, nops, nshared)
+	if k := gen.Uniform(rt, "focused", 6); k == 2 {
+		// churn: every goroutine calls the shared parsed functions in a tight loop (ten times the
+		// operations, no parsing in between) on the short documents
+		c.Ints = append(c.Ints, 10)
+		c.Path += ", churn"
+	} else if k < 2 {
+		// every goroutine works on the same one to three paths (with every Config, through Parse and
+		// Retrieve, on short documents): calls for one path text overlap all the time
+		focus := 1 + gen.Uniform(rt, "focuspaths", 3)
+		c.Ints = append(c.Ints, focus)
+		c.Path += fmt.Sprintf(", focused on %d paths", focus)
+	}
 	return c
 }
 
@@ -113,15 +125,27 @@ type c06Op struct {
 	fn   int
 }
 
-func c06Config(k int) (jsonpath.Config, bool) {
-	switch k % 3 {
-	case 0:
-		return jsonpath.Config{}, false
-	case 1:
-		return BuildConfig(nil, true, false), true
-	}
-	return BuildConfig(nil, true, true), true
+// c06Configs are the Config values of one scenario, built once and used by every goroutine, as a
+// program would: [1] the functions, [2] a copy of [1] with accessor mode set on the copy (the two
+// share their function tables), [3] accessor mode and no function at all. [0] stands for "no
+// Config argument".
+type c06Configs [4]jsonpath.Config
+
+func newC06Configs() *c06Configs {
+	var cs c06Configs
+	cs[1] = BuildConfig(nil, true, false)
+	cs[2] = cs[1]
+	cs[2].SetAccessorMode()
+	cs[3].SetAccessorMode()
+	return &cs
 }
+
+func (cs *c06Configs) get(k int) (jsonpath.Config, bool) {
+	k %= 4
+	return cs[k], k != 0
+}
+
+func c06Accessor(k int) bool { return k%4 >= 2 }
 
 func c06Outcome(got []interface{}, err error) string {
 	if err != nil {
@@ -147,6 +171,7 @@ func checkC06(c *Case, st *Stats) string {
 		docs[i] = gen.MustDecode(d, i%2 == 1)
 		snaps[i] = takeSnapshot(docs[i])
 	}
+	cfgs := newC06Configs()
 	// shared pre-parsed functions (funcs need a config; paths without functions parse under any)
 	type sharedFn struct {
 		path, cfg int
@@ -155,7 +180,7 @@ func checkC06(c *Case, st *Stats) string {
 	var shared []sharedFn
 	for i := 0; i < nshared; i++ {
 		p, k := next(len(paths)), 1+next(2)
-		cfg, _ := c06Config(k)
+		cfg, _ := cfgs.get(k)
 		f, err := jsonpath.Parse(paths[p], cfg)
 		if err != nil {
 			return fmt.Sprintf("harness: corpus path %q does not parse: %v", paths[p], err)
@@ -163,12 +188,37 @@ func checkC06(c *Case, st *Stats) string {
 		shared = append(shared, sharedFn{p, k, f})
 	}
 	// programs
+	var focus []int
+	churn := false
+	if len(c.Ints) >= 5 && c.Ints[4] == 10 {
+		churn = true
+		nops *= 10
+		st.Class("churn-on-shared-functions")
+	} else if len(c.Ints) >= 5 {
+		for i := 0; i < c.Ints[4]; i++ {
+			focus = append(focus, next(len(paths)))
+		}
+		st.Class("focused-on-few-paths")
+	}
 	programs := make([][]c06Op, ng)
 	for g := range programs {
 		for i := 0; i < nops; i++ {
-			op := c06Op{kind: next(3), path: next(len(paths)), cfg: next(3), doc: next(len(docs)), fn: next(len(shared))}
-			if op.cfg == 0 && !c06Plain[op.path] {
-				op.cfg = 1 // only paths without functions can be parsed with no Config at all
+			op := c06Op{kind: next(3), path: next(len(paths)), cfg: next(4), doc: next(len(docs)), fn: next(len(shared))}
+			if churn {
+				op.kind = 1
+				op.doc = next(7)
+			}
+			if len(focus) > 0 {
+				op.path = focus[next(len(focus))]
+				if op.kind == 1 && next(2) == 0 {
+					op.kind = next(2) * 2 // more parsing than in the general scenarios
+				}
+				if next(4) > 0 {
+					op.doc = next(7) // the short documents
+				}
+			}
+			if (op.cfg == 0 || op.cfg == 3) && !c06Plain[op.path] {
+				op.cfg = 1 + next(2) // only paths without functions can be parsed with no Config / a function-less Config
 			}
 			op.text = paths[op.path]
 			if next(3) == 0 {
@@ -211,7 +261,7 @@ func checkC06(c *Case, st *Stats) string {
 		case 0:
 			var f func(interface{}) ([]interface{}, error)
 			var err error
-			if cfg, ok := c06Config(op.cfg); ok {
+			if cfg, ok := cfgs.get(op.cfg); ok {
 				f, err = jsonpath.Parse(op.text, cfg)
 			} else {
 				f, err = jsonpath.Parse(op.text) // no Config argument at all
@@ -221,7 +271,7 @@ func checkC06(c *Case, st *Stats) string {
 			}
 			return f(docs[op.doc])
 		}
-		if cfg, ok := c06Config(op.cfg); ok {
+		if cfg, ok := cfgs.get(op.cfg); ok {
 			return jsonpath.Retrieve(op.text, docs[op.doc], cfg)
 		}
 		return jsonpath.Retrieve(op.text, docs[op.doc])
@@ -275,6 +325,16 @@ func checkC06(c *Case, st *Stats) string {
 				sum := summarize(got, err)
 				full := c06Outcome(got, err)
 				k := key(op)
+				if err == nil && mismatches[g] == "" {
+					// the Config of THIS call decides whether the results are Accessors
+					wantAcc := (op.kind != 1 && c06Accessor(op.cfg)) || (op.kind == 1 && c06Accessor(shared[op.fn].cfg))
+					for j, v := range got {
+						if _, isAcc := v.(jsonpath.Accessor); isAcc != wantAcc {
+							mismatches[g] = fmt.Sprintf("goroutine %d operation %d (kind %d, path %q, config %d, document %d): result %d is %T although accessor mode of this call's Config is %v", g, i, op.kind, op.text, op.cfg, op.doc, j, v, wantAcc)
+							break
+						}
+					}
+				}
 				if want := expect[k]; want != "" && sum != want && mismatches[g] == "" {
 					mismatches[g] = fmt.Sprintf("goroutine %d operation %d (kind %d, path %q, config %d, document %d): concurrent result %s, alone (SPEC) %s", g, i, op.kind, paths[pathOf(op)], op.cfg, op.doc, sum, want)
 				}
